@@ -357,3 +357,5 @@ for _c in CHECKS.values():
 
 _quick("C02", "C02_many", "300 LockIds hold a key of unlimited capacity (beyond ~225 holders the per-key holder queue becomes a node queue with a LockId map); the oldest is released 1 / 100 / 223 / 225 / 227 / 254 / 256 / 258 / 290 times; a second unlock by the LockId released last is UNOWN_ERROR and changes nothing, the next oldest and the newest holders' own unlocks are accepted", ["-witness", "1"])
 _quick("C17", "C17_outoforder", "7..9 holders of a shared key (the inline part of the holder queue is full), one that is not the oldest released, 1..2 more holders taken (the queue compacts), everything released, wheel swept: counters back, no live manager", ["-witness", "4"])
+
+_quick("C10", "C10_wire", "a plain BinaryServerProtocol connection on a node in any non-leader state (key held or not): a LOCK / UNLOCK with any flag byte (8 symbolic bits, no value frame) through the real ProcessCommad is refused with STATE_ERROR (TIMEOUT allowed for the concurrent-check shortcut) and changes nothing", ["-witness", "5"])
